@@ -255,7 +255,7 @@ def leaves(ctx) -> Dict[str, Func]:
     return out
 
 
-@rule("C01.R2", ["C01", "C06", "C02", "C03"], min_instances=4, design="3.1")
+@rule("C01.R2", ["C01", "C06", "C02", "C03", "C10"], min_instances=4, design="3.1")
 def leaf_scan_agreement(ctx):
     """Index leaves evaluate the same function as the scan path: _test(_path_resolver(stored value))."""
     lv = leaves(ctx)
@@ -355,7 +355,7 @@ def leaf_scan_agreement(ctx):
         for lp in walk_local(f.node):
             if isinstance(lp, (ast.For, ast.While)) and any(t in list(ast.walk(lp)) for t in tests):
                 exits = [x for x in walk_local(lp) if isinstance(x, (ast.Break, ast.Return))]
-                yield Ob("C01.R2", ["C01", "C02", "C03"], f"{f.qual} | leaf loop examines every stored value | {first_line(lp, 70)}",
+                yield Ob("C01.R2", ["C01", "C02", "C03", "C10"], f"{f.qual} | leaf loop examines every stored value | {first_line(lp, 70)}",
                          not exits, "no early exit from the loop" if not exits else
                          f"`{norm(exits[0])}` at line {exits[0].lineno} leaves the loop early: one value for which the "
                          f"path cannot be resolved (or the first hit) hides all later values", ctx.prog.loc(lp))
